@@ -59,18 +59,12 @@ set_option maxRecDepth 8000 in
 set_option maxHeartbeats 4000000 in
 theorem iter_none (e : IterEnv) (s : PollerState) (coarse : TimeSpec) (tReply tGrace : Int)
     (refid : Option Nat) (file : PhcFile) : IterStmt e s coarse .none tReply tGrace refid file := by
-  iter_start
-  obtain ⟨h0, h1, h2, h3, h4⟩ := hin
-  poll_tie
-  poll_finish
-
-set_option maxRecDepth 8000 in
-set_option maxHeartbeats 4000000 in
-theorem iter_other (e : IterEnv) (s : PollerState) (coarse : TimeSpec) (tReply tGrace : Int)
-    (refid : Option Nat) (file : PhcFile) : IterStmt e s coarse .other tReply tGrace refid file := by
-  iter_start
-  obtain ⟨h0, h1, h2, h3, h4⟩ := hin
-  poll_tie
-  poll_finish
+  -- `refid` is split although this path never looks at `phc_info`: if the code passes `phc_info` to a helper
+  -- function (seeded refactoring harmless-8) the interpreter must see the constructor of its value
+  cases refid <;>
+  · iter_start
+    obtain ⟨h0, h1, h2, h3, h4⟩ := hin
+    poll_tie
+    poll_finish
 
 end ClockBound.Rs.PollerProof
